@@ -117,7 +117,14 @@ pub fn record(args: &Args) {
 	g.max_children = 5;
 	let mut lines = vec![];
 	for i in 0..n {
-		let a = if i % 3 == 0 { Value::Object(g.object(&mut rng, 2)) } else { g.value(&mut rng, 3) };
+		let a = if i % 10 == 9 {
+			// a wide object (an implementation may switch strategy with the size): 64..100 entries over 40 keys, so that many
+			// keys repeat, some with equal values and some with different ones
+			let n = 64 + rng.below(37);
+			let es: Vec<Entry> = (0..n).map(|j| Entry::new(format!("k{}", (j * 7 + rng.below(3)) % 40).as_str().into(), g.leaf(&mut rng))).collect();
+			let o: Value = Value::Object(es.into_iter().collect());
+			if rng.chance(1, 2) { o } else { Value::Array(vec![Value::Null, o]) }
+		} else if i % 3 == 0 { Value::Object(g.object(&mut rng, 2)) } else { g.value(&mut rng, 3) };
 		let b = match i % 4 {
 			0 | 1 => shuffle_deep(&mut rng, &a),
 			2 => {
